@@ -359,18 +359,6 @@ Definition sigs_of (m : list (bytes * json)) : option sigmap :=
   | Some j => decode_sigs j
   end.
 
-(* the signature VerifyJSON will check for (name, kid), if the map is readable *)
-Definition sig_at (name kid : bytes) (v : json) : option bytes :=
-  match v with
-  | JObj m =>
-      match assoc_last k_signatures m with
-      | None => None
-      | Some JNull => None
-      | Some j => match decode_sigs j with Some sm => lookup_sig name kid sm | None => None end
-      end
-  | _ => None
-  end.
-
 Lemma sigs_of_wf m sm : sigs_of m = Some sm -> sigmap_wf sm.
 Proof.
   unfold sigs_of. destruct (assoc_last k_signatures m).
@@ -378,20 +366,35 @@ Proof.
   - intro H. inversion H. constructor.
 Qed.
 
+(* when the whole signature map decodes (as SignJSON demands), the entry VerifyJSON reads on its
+   own is the one of the decoded map *)
 Lemma sig_at_sigs_of name kid m sm :
   sigs_of m = Some sm -> sig_at name kid (JObj m) = lookup_sig name kid sm.
 Proof.
-  unfold sigs_of, sig_at. destruct (assoc_last k_signatures m) as [j|].
-  - intro H. rewrite H. destruct j; try reflexivity.
-    simpl in H. inversion H. reflexivity.
+  unfold sigs_of, sig_at, sig_entry, lookup_sig. destruct (assoc_last k_signatures m) as [j|].
+  - destruct j; simpl; try discriminate.
+    + intro H. inversion H. reflexivity.
+    + rename m0 into jm. intro D. unfold decode_outer in D.
+      pose proof (traverse_lookup decode_entity jm sm name D) as L.
+      destruct (assoc_last name jm) as [a|].
+      * destruct L as [e [E L]]. rewrite L.
+        destruct a; simpl in E; try discriminate.
+        { inversion E. reflexivity. }
+        { rename m0 into inner. destruct (decode_inner inner) as [innerd|] eqn:DI; [|discriminate].
+          inversion E; subst e. unfold decode_inner in DI.
+          pose proof (traverse_lookup decode_sig inner innerd kid DI) as L2.
+          destruct (assoc_last kid inner) as [x|].
+          - destruct L2 as [sg [E2 L2]]. rewrite L2. exact E2.
+          - rewrite L2. reflexivity. }
+      * rewrite L. reflexivity.
   - intro H. inversion H. reflexivity.
 Qed.
 
 Lemma sig_at_signed_obj name kid m sm :
   sigmap_wf sm -> sig_at name kid (signed_obj m sm) = lookup_sig name kid sm.
 Proof.
-  intro W. unfold sig_at, signed_obj. rewrite signed_obj_signatures.
-  rewrite (decode_encode_sigs sm W). reflexivity.
+  intro W. unfold signed_obj. apply sig_at_sigs_of.
+  unfold sigs_of. rewrite signed_obj_signatures. apply decode_encode_sigs. exact W.
 Qed.
 
 Section Scheme.
@@ -407,13 +410,7 @@ Section Scheme.
     | Some s => sig_size_ok s && pk_size_ok p && verify p (canon_print (verified_part v)) s
     | None => false
     end.
-  Proof.
-    unfold Model.verify_value, sig_at. destruct v; try reflexivity.
-    destruct (assoc_last k_signatures m) as [j|]; [|reflexivity].
-    destruct j; try reflexivity;
-      match goal with |- context [decode_sigs ?x] => destruct (decode_sigs x) as [sm|] end; try reflexivity;
-      destruct (lookup_sig name kid sm); reflexivity.
-  Qed.
+  Proof. reflexivity. Qed.
 
   (* SignJSON on an object: when it succeeds, and what it returns *)
   Lemma sign_value_obj name kid k m :
@@ -589,12 +586,8 @@ Proof.
   unfold list_key_ids_value, key_ids_of. simpl.
   destruct (assoc_last k_signatures m) as [j|]; [|intro H; inversion H; reflexivity].
   destruct j; try discriminate; try (intro H; inversion H; reflexivity).
-  rename m0 into sm. destruct (keyid_outer sm) as [tbl|] eqn:T; [|discriminate].
-  pose proof (traverse_lookup entity_keys sm tbl name T) as L.
-  destruct (assoc_last name sm) as [j|].
-  - destruct L as [e [E L]]. rewrite L. intro H. inversion H; subst.
-    destruct j; simpl in E; try discriminate; inversion E; reflexivity.
-  - rewrite L. intro H. inversion H. reflexivity.
+  destruct (assoc_last name m0) as [e|]; [|intro H; inversion H; reflexivity].
+  destruct e; try discriminate; intro H; inversion H; reflexivity.
 Qed.
 
 Lemma traverse_keys {A B} (f : A -> option B) m r : traverse f m = Some r -> map fst r = map fst m.
@@ -630,26 +623,13 @@ Theorem sig_at_is_listed name kid m s :
   sig_at name kid (JObj m) = Some s ->
   exists ks, list_key_ids_value name (JObj m) = Some ks /\ In kid ks.
 Proof.
-  unfold sig_at, list_key_ids_value. simpl.
+  unfold sig_at, sig_entry, list_key_ids_value. simpl.
   destruct (assoc_last k_signatures m) as [j|]; [|discriminate].
-  destruct j; try discriminate. rename m0 into sm. simpl.
-  destruct (decode_outer sm) as [smd|] eqn:D; [|discriminate].
-  unfold lookup_sig.
-  pose proof (traverse_lookup decode_entity sm smd name D) as L.
-  destruct (traverse_total decode_entity entity_keys sm smd) as [tbl T].
-  { intros a b Ha. destruct a; simpl in Ha; try discriminate; eexists; reflexivity. }
-  { exact D. }
-  unfold keyid_outer. rewrite T.
-  pose proof (traverse_lookup entity_keys sm tbl name T) as L2.
-  destruct (assoc_last name sm) as [j|]; [|rewrite L; discriminate].
-  destruct L as [e [E L]]. rewrite L. destruct L2 as [ks [EK L2]]. rewrite L2.
-  destruct e as [innerd|]; [|discriminate].
-  destruct j; simpl in E; try discriminate. rename m0 into inner.
-  destruct (decode_inner inner) as [innerd'|] eqn:DI; [|discriminate]. inversion E; subst innerd'.
-  simpl in EK. inversion EK; subst ks.
-  intro K. eexists. split; [reflexivity|].
-  rewrite <- (traverse_keys decode_sig inner innerd DI).
-  eapply assoc_last_in_keys. exact K.
+  destruct j; try discriminate. rename m0 into sm.
+  destruct (assoc_last name sm) as [e|]; [|discriminate].
+  destruct e; try discriminate. rename m0 into inner.
+  destruct (assoc_last kid inner) as [x|] eqn:K; [|discriminate].
+  intros _. eexists. split; [reflexivity|]. eapply assoc_last_in_keys. exact K.
 Qed.
 
   (* ---- the forms stated in Props/C02.v ---- *)
